@@ -56,7 +56,11 @@ static void run_round(uint64_t idx, pv_rng* rng) {
     polyseed_data* s = pv_seed_from_model(&m);
     PV_COUNT("evaluations", 1);
     if (!s) { pv_violation("C06/valid-image-rejected", "mask %u seed %s image %s", g_mask, pv_mseed_str(&m), pv_hex(img, 32)); return; }
-    uint8_t* o = malloc(32); pv_api_store(s, o);
+    uint8_t* o = malloc(32);
+    bool other = idx % 5 == 0;      /* storing does not depend on which features are enabled at the moment */
+    if (other) { polyseed_enable_features(pv_randn(rng, 8)); PV_COUNT("roundtrip.stored_under_other_feature_mask", 1); }
+    pv_api_store(s, o);
+    if (other) polyseed_enable_features(g_mask);
     if (memcmp(o, img, 32)) pv_violation("C06/store-bytes", "seed %s: store %s, specification %s", pv_mseed_str(&m), pv_hex(o, 32), pv_hex(img, 32));
     else {
         polyseed_data* t = NULL; int st = pv_api_load(o, &t);
